@@ -131,13 +131,18 @@ func listingFor(typ string, names []string) string {
 	return sb.String()
 }
 
+// entrySize is the size written into ollama-style entries (set by the generator through sizeFor).
 func entryFor(typ string, nameJSON string, digest ...string) string {
 	if typ == "ollama" {
+		size := "1"
+		if len(digest) > 1 {
+			size = digest[1]
+		}
 		if len(digest) > 0 && digest[0] != "-" {
 			d, _ := json.Marshal(digest[0])
-			return `{"name":` + nameJSON + `,"model":` + nameJSON + `,"size":1,"digest":` + string(d) + `}`
+			return `{"name":` + nameJSON + `,"model":` + nameJSON + `,"size":` + size + `,"digest":` + string(d) + `}`
 		}
-		return `{"name":` + nameJSON + `,"model":` + nameJSON + `,"size":1}`
+		return `{"name":` + nameJSON + `,"model":` + nameJSON + `,"size":` + size + `}`
 	}
 	return `{"id":` + nameJSON + `,"object":"model","created":1733000000,"owned_by":"harness"}`
 }
@@ -264,7 +269,12 @@ func genDisc(t *rapid.T) DiscCase {
 			if c.TypeA == "ollama" {
 				dg = rapid.SampledFrom([]string{"-", "-", fmt.Sprintf("sha256:%064d", i), fmt.Sprintf("%064x", 1000+i), fmt.Sprintf("abc%d", i), "", ":", "sha256:"}).Draw(t, "digest")
 			}
-			entries = append(entries, entryFor(c.TypeA, nm, dg))
+			// sizes as a backend may report them, up to the largest a 64-bit integer holds
+			size := "1"
+			if c.TypeA == "ollama" {
+				size = rapid.SampledFrom([]string{"1", "1", "4661224676", "0", "1152921504606846976", "4611686018427387904", "9223372036854775807"}).Draw(t, "size")
+			}
+			entries = append(entries, entryFor(c.TypeA, nm, dg, size))
 		}
 		if c.Kind == "duplicate" && len(entries) >= 1 && rapid.Bool().Draw(t, "dup-first") {
 			entries = append(entries, entries[0])
@@ -575,6 +585,20 @@ func runDisc(c DiscCase) []ev.Violation {
 			wait = 1000 * time.Millisecond
 		}
 		time.Sleep(wait)
+	}
+	// the pages that present the catalogue must still be served, whatever the listing said
+	for _, page := range []string{"/olla/models", "/internal/status/models", "/olla/models?format=ollama"} {
+		resp, err := cl.Get(s.BaseURL + page)
+		if err != nil {
+			bad("discovery/catalogue-page-not-served"+page, "GET %s failed (%v) after endpoint A (%s) served %s", page, err, c.TypeA, show([]byte(poison)))
+			break
+		}
+		_, _ = io.Copy(io.Discard, resp.Body)
+		resp.Body.Close()
+		if resp.StatusCode >= 500 {
+			bad("discovery/catalogue-page-not-served"+page, "GET %s answered %d after endpoint A (%s) served %s", page, resp.StatusCode, c.TypeA, show([]byte(poison)))
+			break
+		}
 	}
 	stale, dupEntries, after := false, false, ""
 	judgeA := func() (sig, detail string) {
